@@ -67,11 +67,14 @@ class H5Events:
     @property
     def _features(self):
         if self._features_list is None:
-            self._features_list = sorted(self.h5file["events"].keys())
+            features = sorted(self.h5file["events"].keys())
             # make sure that "trace" is not empty
-            if ("trace" in self._features
+            if ("trace" in features
                     and len(self.h5file["events"]["trace"]) == 0):
-                self._features_list.remove("trace")
+                features.remove("trace")
+            # Store the list only after it is complete (the file access
+            # above may raise an exception for remote files).
+            self._features_list = features
         return self._features_list
 
     def __contains__(self, key):
